@@ -225,7 +225,12 @@ class SArray:
         return "SArray%s" % (self.shape,)
 
     def __str__(self):
-        return "SArray%s%s" % (self.shape, [("?" if sx.is_sym(c) else c) for c in self.cells()])
+        if any(sx.is_sym(c) for c in self.cells()):
+            # numpy's text form depends on the values (and is abbreviated above 1000 entries):
+            # code that derives behaviour from str(array) - e.g. hash(str(tensor)) as a cache key -
+            # cannot be followed symbolically
+            raise sx.EngineUnsupported("str() of an array with symbolic cells")
+        return str(to_real(self))
 
 
 ndarray = SArray
